@@ -77,6 +77,10 @@ def build_sets(work, tier):
     common.write_file(os.path.join(work, "s7", "bogus.gz"), b"this is not gzip\n")
     common.write_file(os.path.join(work, "s7", "ok.log"), gen.text_log([(E * 1000 + 5, b"ok1"), (E * 1000 + 2000, b"ok2", [b" more"])]))
     sets.append(("s7", ["trunc.log.gz", "bogus.gz", "ok.log"], {}))
+    # a source whose own messages are not in time order (a late-written entry), beside an ordered one
+    common.write_file(os.path.join(work, "s8", "ooo.log"), gen.text_log([(E * 1000 + 1000 * t, b"ooo %d" % t) for t in (3, 9, 5, 1, 12, 7)]))
+    common.write_file(os.path.join(work, "s8", "ord.log"), gen.text_log([(E * 1000 + 1000 * t, b"ord %d" % t) for t in (4, 6, 13)]))
+    sets.append(("s8", ["ooo.log", "ord.log"], {}))
     return sets
 
 
@@ -103,10 +107,10 @@ def run(tier, seed, build=True):
                 try:
                     s = c13.load_source(wd, p, known.get(p))
                 except c13.MalformedReference as e:
-                    # decoration itself is broken for this source: C13's verdict; nothing can be reconstructed here
-                    res.coverage.setdefault("sets_skipped_malformed_reference", []).append(sname)
-                    skip = True
-                    break
+                    # decoration itself is broken for this source (C13's verdict): nothing can be reconstructed, but the
+                    # comparisons that need no reconstruction (stdout with/without --summary, Printed bytes) still run
+                    res.coverage.setdefault("sets_without_reconstruction", []).append(sname)
+                    s = c13.Source(p, os.path.basename(p), [])
                 s.is_text = not (p.endswith(".wtmp") or p.endswith(".journal") or p.endswith(".evtx"))
                 s.kind = "fixedstruct" if p.endswith(".wtmp") else "journal" if p.endswith(".journal") else "evtx" if p.endswith(".evtx") else "text"
                 sources.append(s)
@@ -118,7 +122,8 @@ def run(tier, seed, build=True):
             if len(allns) >= 3:
                 wins.append((allns[1], allns[-2]))
                 wins.append((allns[0], allns[0]))
-            wins.append((allns[-1] + 5 * 10 ** 9, None))
+            if allns:
+                wins.append((allns[-1] + 5 * 10 ** 9, None))
             use = opts if sname != "s3" else opts[::5]
             items = [(o, c, w, bz) for o in use for c in ("never", "always") for w in wins for bz in ([None] if sname != "s7" else [None, 1024])]
 
